@@ -56,6 +56,10 @@ def workdir(*parts):
 def build(src, out, flags=(), std="c++20", opt="-O1", timeout=900, include_repo=True):
     """Compile harness/<src> into build/<out>. Always rebuilds (header-only library: this *is*
     the rebuild from the current working tree)."""
+    if os.environ.get("VERIF_SANITIZE") and include_repo and "-fsyntax-only" not in flags and not any("-fsanitize" in f for f in flags):
+        # C02: the same drivers, built with ASan + UBSan (a stop inside a valid call is a trap/crash deviation)
+        flags = list(flags) + ["-fsanitize=address,undefined", "-fno-sanitize-recover=all", "-g"]
+        out = out + "_san"
     outp = os.path.join(workdir("bin"), out)
     cmd = ["g++", "-std=" + std, opt, "-w", "-I" + HARNESS]
     if include_repo:
